@@ -376,6 +376,94 @@ func runC14(c *Ctx) {
 			return true
 		})
 	}
+	// function form: if op, ok := classify(line[0]); ok { file(op, line[k:]) } with classify a package
+	// function whose switch on its parameter returns a constant opcode per marker byte
+	for _, fd := range helperDecls(p, ruc, 2) {
+		ast.Inspect(fd, func(n ast.Node) bool {
+			ifs, ok := n.(*ast.IfStmt)
+			if !ok || ifs.Init == nil {
+				return true
+			}
+			as, ok := ifs.Init.(*ast.AssignStmt)
+			if !ok || len(as.Rhs) != 1 {
+				return true
+			}
+			call, ok := as.Rhs[0].(*ast.CallExpr)
+			if !ok || len(call.Args) != 1 {
+				return true
+			}
+			if inner, ok := call.Args[0].(*ast.IndexExpr); !ok {
+				return true
+			} else if k, ok := constIntOf(info, inner.Index); !ok || k != 0 {
+				return true
+			}
+			id, ok := call.Fun.(*ast.Ident)
+			if !ok {
+				return true
+			}
+			cfd := findFuncDecl(p, id.Name)
+			if cfd == nil || cfd.Body == nil || cfd.Type.Params == nil || len(cfd.Type.Params.List) != 1 || len(cfd.Type.Params.List[0].Names) != 1 {
+				return true
+			}
+			pname := cfd.Type.Params.List[0].Names[0].Name
+			tbl := map[int64]int64{}
+			ast.Inspect(cfd.Body, func(m ast.Node) bool {
+				sw, ok := m.(*ast.SwitchStmt)
+				if !ok {
+					return true
+				}
+				if tag, ok := sw.Tag.(*ast.Ident); !ok || tag.Name != pname {
+					return true
+				}
+				for _, st := range sw.Body.List {
+					cc, ok := st.(*ast.CaseClause)
+					if !ok {
+						continue
+					}
+					var opv int64
+					have := false
+					for _, bs := range cc.Body {
+						if rs, ok := bs.(*ast.ReturnStmt); ok && len(rs.Results) >= 1 {
+							if tv, ok := info.Types[rs.Results[0]]; ok {
+								if nt, ok := tv.Type.(*types.Named); ok && nt.Obj().Name() == "EditOp" {
+									if k, ok := constIntOf(info, rs.Results[0]); ok {
+										opv, have = k, true
+									}
+								}
+							}
+						}
+					}
+					if !have {
+						continue
+					}
+					for _, e := range cc.List {
+						if k, ok := constIntOf(info, e); ok {
+							tbl[k] = opv
+						}
+					}
+				}
+				return true
+			})
+			if len(tbl) == 0 {
+				return true
+			}
+			off := int64(-1)
+			ast.Inspect(ifs.Body, func(m ast.Node) bool {
+				if se, ok := m.(*ast.SliceExpr); ok && se.Low != nil && se.High == nil {
+					if k, ok := constIntOf(info, se.Low); ok {
+						off = k
+					}
+				}
+				return true
+			})
+			if off >= 0 {
+				for key, op := range tbl {
+					rUnified[byte(key)] = rl{op, off}
+				}
+			}
+			return true
+		})
+	}
 	judgeLine := func(op int64, want wl) {
 		key := fmt.Sprintf("unified:%s.%s", opNames[op], want.field)
 		got, ok := rUnified[want.pfx[0]]
